@@ -9,7 +9,8 @@ from . import common as K
 ID = "C12"
 LEVEL = "exploration"
 RULE = ("generated filters for random definitions in each control x calibration combination x sensor count in "
-        "{0,1,2,3} x max_dt_sec in {0.01,0.1,0.5}; one translation unit per filter instantiates "
+        "{0,1,2,3} x max_dt_sec in {0.01,0.1,0.5,0.0123456789,1/3,0.25000000000000006,2.5e-7,7.7e-5}; compiled "
+        "constants read back; one translation unit per filter instantiates "
         "ManagedFilter<generated::ExtendedKalmanFilter> (static_assert compatible) and "
         "ManagedFilter<Rec> where Rec derives from the generated filter and logs every process_model dt, readings "
         "wrapped in a logging subclass; tick histories forwards/backwards with and without readings of every reading "
